@@ -72,9 +72,9 @@ func checkC02(c *ExecCase) (*ev.Failure, *execOutcome, int) {
 			return
 		}
 		if s.URL == internalURL {
-			// introspection fields are answered locally; anything else must not be routed here
+			// introspection fields and the root __typename are answered locally; anything else must not be routed here
 			for _, f := range flatFieldNames(s.SelectionSet) {
-				if f != "__schema" && f != "__type" {
+				if f != "__schema" && f != "__type" && f != "__typename" {
 					fail = ev.Failf("wrong-service:internal", "field %q is routed to the internal pseudo service", f)
 				}
 			}
@@ -133,8 +133,10 @@ func checkC02(c *ExecCase) (*ev.Failure, *execOutcome, int) {
 				return
 			}
 			if _, supplied := c.Op.Variables[vd.Variable]; !supplied && cv.DefaultValue != nil {
-				if vd.DefaultValue == nil || vd.DefaultValue.String() != cv.DefaultValue.String() {
-					fail = ev.Failf("var-value:default-lost", "client declares $%s with default %s and supplies no value; the sub-request declares default %v", vd.Variable, cv.DefaultValue.String(), vd.DefaultValue)
+				// the default travels either as a declaration of the sub-request or as a value of the step (checked at the service below)
+				_, asValue := s.VariableDefaults[vd.Variable]
+				if !asValue && (vd.DefaultValue == nil || vd.DefaultValue.String() != cv.DefaultValue.String()) {
+					fail = ev.Failf("var-value:default-lost", "client declares $%s with default %s and supplies no value; the sub-request declares default %v and the step carries no value for it", vd.Variable, cv.DefaultValue.String(), vd.DefaultValue)
 					return
 				}
 			}
@@ -191,7 +193,7 @@ func checkC02(c *ExecCase) (*ev.Failure, *execOutcome, int) {
 				okDefault := vd.DefaultValue != nil && vd.DefaultValue.String() == cv.DefaultValue.String()
 				if !okDefault && has {
 					dv, derr := cv.DefaultValue.Value(nil)
-					okDefault = derr == nil && reflect.DeepEqual(refexec.Normalize(dv), refexec.Normalize(val))
+					okDefault = derr == nil && reflect.DeepEqual(refexec.Normalize(refexec.FixNilLists(dv)), refexec.Normalize(val))
 				}
 				if !okDefault {
 					return ev.Failf("var-value:default-lost", "client default %s of $%s reaches service %s neither as declaration nor as value", cv.DefaultValue.String(), vd.Variable, r.Service), out, nsteps
